@@ -83,7 +83,7 @@ def describe(cls, is_part, all_vocab, part_instances):
     if obj is None:
         raise GenError("baseline construction of %s failed" % cls.__name__)
     d = obj.__dict__
-    stored = [k for k in UNIVERSE if k in d and d[k] == base[k]]
+    stored = [k for k in d if k in UNIVERSE and d[k] == base[k]]     # in __dict__ (serialisation) order
     for k in d:
         if k not in UNIVERSE and k not in ("value", "children"):
             raise GenError("%s stores unexpected attribute %r" % (cls.__name__, k))
